@@ -131,6 +131,39 @@ def scenario(name):
                 p = subprocess.run(["patch", "-s", f"u{i}.lua"], cwd=d, input=out, capture_output=True)
                 if r(f"u{i}.lua") != ref: return False, f"patch(1) applied to the unified diff of {c!r} does not give the formatted text"
             return True, ""
+        if name == "config_search":
+            body = b"do\nlocal x = 1\nend\n"
+            def indent_of(data):
+                line = data.split(b"\n")[1]
+                return len(line) - len(line.lstrip(b" \t")), line[:1]
+            w("stylua.toml", b'indent_type = "Spaces"\nindent_width = 2\n[sort_requires]\nenabled = true\n')
+            w("sub/.stylua.toml", b'indent_type = "Spaces"\nindent_width = 8\n')
+            w("a.lua", body); w("sub/b.lua", body); w("sub/deep/c.lua", body)
+            w("req.lua", b'local b = require("b")\nlocal a = require("a")\n')
+            rc, out, err = run(["."], d)
+            if rc != 0: return False, f"exit {rc}: {err[:200]!r}"
+            got = (indent_of(r("a.lua"))[0], indent_of(r("sub/b.lua"))[0], indent_of(r("sub/deep/c.lua"))[0])
+            if got != (2, 8, 8): return False, f"indent widths (cwd file, nested config, below nested config) = {got}, expected (2, 8, 8)"
+            if not r("req.lua").startswith(b'local a'): return False, "sort_requires enabled in stylua.toml was not applied without --sort-requires"
+            w("a.lua", body); w("sub/b.lua", body)
+            rc, out, err = run(["--indent-width", "3", "a.lua", "sub/b.lua"], d)
+            got = (indent_of(r("a.lua"))[0], indent_of(r("sub/b.lua"))[0])
+            if got != (3, 3): return False, f"--indent-width 3 gives {got}"
+            w("other/cfg.toml", b'indent_type = "Spaces"\nindent_width = 5\n'); w("sub/b.lua", body)
+            rc, out, err = run(["--config-path", "other/cfg.toml", "sub/b.lua"], d)
+            if indent_of(r("sub/b.lua"))[0] != 5: return False, "--config-path not used"
+            # editorconfig fallback is per file, not per directory
+            e = os.path.join(d, "ec"); os.makedirs(e)
+            w("ec/.editorconfig", b"root = true\n[*.lua]\nindent_style = space\nindent_size = 2\n[*_spec.lua]\nindent_size = 6\n")
+            for order in (["x.lua", "x_spec.lua"], ["x_spec.lua", "x.lua"]):
+                w("ec/x.lua", body); w("ec/x_spec.lua", body)
+                rc, out, err = run(order, e)
+                got = (indent_of(r("ec/x.lua"))[0], indent_of(r("ec/x_spec.lua"))[0])
+                if got != (2, 6): return False, f".editorconfig sections for x.lua / x_spec.lua given as {order}: indents {got}, expected (2, 6)"
+            w("ec/x.lua", body)
+            rc, out, err = run(["--no-editorconfig", "x.lua"], e)
+            if indent_of(r("ec/x.lua")) != (1, b"\t"): return False, "--no-editorconfig did not fall back to the defaults"
+            return True, ""
         raise KeyError(name)
     finally:
         shutil.rmtree(d, ignore_errors=True)
